@@ -27,6 +27,7 @@ pub struct Variant {
 
 #[derive(Debug, Clone)]
 pub struct Schema {
+    pub read_envelope: Vec<String>,
     pub envelope: Vec<String>,
     pub tag_field: String,
     pub variants: Vec<Variant>,
@@ -92,8 +93,10 @@ pub fn extract(file: &syn::File) -> Result<Schema, String> {
     let mut kind_enum: Option<&syn::ItemEnum> = None;
     let mut wire: Option<&syn::ItemStruct> = None;
     let mut stream_fn: Option<&syn::ImplItemFn> = None;
+    let mut event_struct: Option<&syn::ItemStruct> = None;
     for item in &file.items {
         match item {
+            syn::Item::Struct(s) if s.ident == "Event" => event_struct = Some(s),
             syn::Item::Enum(e) if e.ident == "EventKind" => kind_enum = Some(e),
             syn::Item::Struct(s) if s.ident == "EventWire" => wire = Some(s),
             syn::Item::Impl(i) if i.self_ty.to_token_stream().to_string() == "Event" && i.trait_.is_none() => {
@@ -109,6 +112,15 @@ pub fn extract(file: &syn::File) -> Result<Schema, String> {
         }
     }
     let kind_enum = kind_enum.ok_or("enum EventKind not found")?;
+    let event_struct = event_struct.ok_or("struct Event not found")?;
+    let mut read_envelope = Vec::new();
+    for f in &event_struct.fields {
+        let a = serde_attrs(&f.attrs)?;
+        if a.flatten {
+            continue;
+        }
+        read_envelope.push(a.rename.unwrap_or_else(|| f.ident.as_ref().unwrap().to_string()));
+    }
     let wire = wire.ok_or("struct EventWire not found")?;
     let stream_fn = stream_fn.ok_or("Event::stream_kind not found")?;
     let enum_attrs = serde_attrs(&kind_enum.attrs)?;
@@ -198,12 +210,14 @@ pub fn extract(file: &syn::File) -> Result<Schema, String> {
             return Err(format!("stream_kind names unknown variant {v}"));
         }
     }
-    Ok(Schema { envelope, tag_field, variants })
+    Ok(Schema { read_envelope, envelope, tag_field, variants })
 }
 
 pub fn to_json(s: &Schema) -> Value {
     json!({
         "envelope": s.envelope,
+        "read_envelope": s.read_envelope,
+        "names": intern_table(s),
         "tag_field": s.tag_field,
         "variants": s.variants.iter().map(|v| json!({
             "ident": v.ident, "tag": v.tag, "aliases": v.aliases, "stream": v.stream,
@@ -217,6 +231,36 @@ pub fn to_json(s: &Schema) -> Value {
 
 /// names are interned to numbers (so that `decide` works on plain `Nat` comparisons); the table is
 /// emitted as a comment and as `nameTable` for display
+/// the interning order used by `to_lean` (first occurrence)
+pub fn intern_table(s: &Schema) -> Vec<String> {
+    let mut names: Vec<String> = Vec::new();
+    let mut id = |n: &str, names: &mut Vec<String>| {
+        if !names.iter().any(|x| x == n) {
+            names.push(n.to_string());
+        }
+    };
+    for n in &s.envelope {
+        id(n, &mut names);
+    }
+    id(&s.tag_field, &mut names);
+    for v in &s.variants {
+        id(&v.tag, &mut names);
+        for a in &v.aliases {
+            id(a, &mut names);
+        }
+        for f in &v.fields {
+            id(&f.name, &mut names);
+            for a in &f.aliases {
+                id(a, &mut names);
+            }
+        }
+    }
+    for n in &s.read_envelope {
+        id(n, &mut names);
+    }
+    names
+}
+
 pub fn to_lean(s: &Schema) -> String {
     let mut names: Vec<String> = Vec::new();
     let mut id = |n: &str, names: &mut Vec<String>| -> usize {
@@ -257,6 +301,8 @@ pub fn to_lean(s: &Schema) -> String {
         ));
     }
     out.push_str(&format!("def envelope : List Nat := [{}]\n\n", env.join(", ")));
+    let renv: Vec<String> = s.read_envelope.iter().map(|n| id(n, &mut names).to_string()).collect();
+    out.push_str(&format!("def readEnvelope : List Nat := [{}]\n\n", renv.join(", ")));
     out.push_str(&format!("def tagField : Nat := {tagf}\n\n"));
     out.push_str(&format!("def variants : List Variant := [\n{}\n]\n\n", vs.join(",\n")));
     out.push_str("/- name table\n");
